@@ -60,6 +60,16 @@ def apply_clauses(src, clauses):
     rewrites first (they are literal), then everything else computed on one lex and applied
     back-to-front."""
     for c in clauses:
+        if c["op"] == "replace_range":
+            a, b = c["start"], c["stop"]
+            if src.count(a) != 1 or src.count(b) != 1:
+                raise LostAnchor(f"replace_range anchors occur {src.count(a)}/{src.count(b)} times: {a[:40]!r} .. {b[:40]!r}")
+            i0 = src.find(a)
+            i1 = src.find(b) + len(b)
+            if i1 <= i0:
+                raise LostAnchor("replace_range: stop anchor precedes start anchor")
+            src = src[:i0] + c["new"] + src[i1:]
+    for c in clauses:
         if c["op"] == "rewrite":
             n = src.count(c["old"])
             if n != 1:
@@ -67,7 +77,7 @@ def apply_clauses(src, clauses):
             src = src.replace(c["old"], c["new"])
     toks = lex(src)
     edits = []
-    if all(c["op"] in ("rewrite", "before", "after", "tail", "after_stmt") for c in clauses):
+    if all(c["op"] in ("rewrite", "replace_range", "before", "after", "tail", "after_stmt") for c in clauses):
         fnk, body = -1, -1
     else:
         fnk, body = _fn_parts(src, toks)
@@ -78,7 +88,7 @@ def apply_clauses(src, clauses):
         loops, closures = [], []
     for c in clauses:
         op = c["op"]
-        if op == "rewrite":
+        if op in ("rewrite", "replace_range"):
             continue
         if op == "sig":
             pos = toks[body].start if body >= 0 else toks[-1].start
